@@ -1,6 +1,7 @@
 """C02 WHERE comparisons mean what the documentation says, for every entry."""
 import os
 import stat
+import subprocess
 
 from fsx import core
 from fsx import matchers as mt
@@ -46,7 +47,8 @@ def the_tree(variant=0):
         'h3': {'t': 'f', 'link': 'h1'}, '.hid': F(3), 'su': F(2, mode=0o4755), 'sg': F(2, mode=0o2755),
         'ro': F(2, mode=0o444), 'none': F(2, mode=0), 'wx': F(2, mode=0o233), 'Name.TXT': F(12),
         'sub': D({'size': F(10), 'deep.txt': F(7)}), 'emptyd': D({}, mode=0o700), 'lnk': L('sub'), 'pipe': {'t': 'p'},
-        'lc': D({'l0': F(data=''), 'l1': F(data=lines(1)), 'l2': F(data=lines(2)), 'l10': F(data=lines(10)),
+        'bs\\': F(16), 'mid\\dle': F(17), 'dq"x': F(18),
+        'lc': D({'big70k': F(data='line..\n' * 10000), 'big200k': F(data='x\n' * 100001 + 'tail'), 'l0': F(data=''), 'l1': F(data=lines(1)), 'l2': F(data=lines(2)), 'l10': F(data=lines(10)),
                  'nl': F(data='a\nb'), 'l3.txt': F(data=lines(3))}),
     }
     if variant == 1:
@@ -135,11 +137,11 @@ def gen_cases(col, kind, ents, tier):
     elif kind == 'text':
         vals = sorted({e[col] for e in ents if e[col] != ''})
         if tier == 'quick':
-            vals = vals[:14]
+            vals = vals[:14] + [v for v in vals[14:] if '\\' in v or '"' in v]
         for v in vals:
             plain = all(c.isalnum() or c in '._/' for c in v) and not v[0].isdigit()
             for quoted in ((False, True) if plain else (True,)):
-                lit = "'%s'" % v if quoted else v
+                lit = ("'%s'" % v if "'" not in v else '"%s"' % v) if quoted else v
                 cls = 'text-quoted-keyword' if quoted and v in ('size', 'name', 'bin', 'lower', 'true', 'ext', 'upper') else 'text'
                 if not quoted and v in ('size', 'name', 'bin', 'lower', 'true', 'ext', 'upper', 'lc', 'sub', 'none', 'wx', 'su', 'sg', 'ro'):
                     continue   # an unquoted word that spells a column/function is not a literal
@@ -225,6 +227,7 @@ def colspecs():
         yield c, 'bool'
     yield 'modified', 'date'
     yield '*', 'colcol'
+    yield '*', 'longpath'
 
 
 def groups(tier, seed):
@@ -237,7 +240,57 @@ def single(case):
     return {'variant': case['variant'], 'col': case['col'], 'kind': case['kind'], 'only': case['cond']}
 
 
+def eval_longpath(env, group):
+    """entries whose displayed path is at, just below and above PATH_MAX (their parent directory still fits):
+    metadata columns must still be compared correctly"""
+    root = env.newdir('c2lp')
+    outs = []
+    cwd0 = os.getcwd()
+    try:
+        os.chdir(root)
+        for i in range(20):
+            comp = chr(ord('a') + i) * 199
+            os.mkdir(comp)
+            os.chdir(comp)
+        files = {}
+        for n in (80, 90, 92, 93, 94, 95, 120, 200):
+            name = 'lp' + 'x' * (n - 2)
+            with open(name, 'wb') as f:
+                f.write(b'z' * n)
+            os.utime(name, (T0, T0 + n))
+            files[name] = os.lstat(name)
+        os.chdir(cwd0)
+        conds = []
+        for n in (80, 93, 94, 95, 200):
+            conds += [('size = %d' % n, lambda st, n=n: st.st_size == n), ('size > %d' % n, lambda st, n=n: st.st_size > n),
+                      ('size <= %d' % n, lambda st, n=n: st.st_size <= n), ("modified = '%s'" % fmt_date(T0 + n), lambda st, n=n: int(st.st_mtime) == T0 + n)]
+        conds += [('is_file = true', lambda st: True), ('is_dir = false', lambda st: True), ('hardlinks = 1', lambda st: True), ('hardlinks > 1', lambda st: False),
+                  ("mode = '-rw-r--r--'", lambda st: True), ('uid = 0', lambda st: True), ('user_read = true', lambda st: True), ('is_symlink = true', lambda st: False)]
+        for cond, pred in conds:
+            if group.get('only') is not None and cond != group['only']:
+                continue
+            q = 'name from . where %s into list' % cond
+            o = env.run([q], cwd=root, timeout=20.0)
+            got = sorted(r_ for r_ in o.rows() if r_.startswith('lp'))
+            exp = sorted(n for n, st in files.items() if pred(st))
+            r = {'case': {'variant': 0, 'col': '*', 'kind': 'longpath', 'cond': cond}, 'nt': True, 'layer': 'longpath', 'trans': len(files)}
+            if o.timeout or o.panicked or o.rc not in (0, 1):
+                r.update(status='viol', cls='longpath:status', detail=dict(o.brief(), query=q), sig=('err',))
+            elif got != exp:
+                r.update(status='viol', cls='longpath:rows', sig=('rows',), detail={'query': q, 'missing_name_lengths': [len(x) for x in exp if x not in got],
+                                                                                   'extra_name_lengths': [len(x) for x in got if x not in exp]})
+            else:
+                r.update(status='ok', sig=(cond, len(exp)))
+            outs.append(r)
+    finally:
+        os.chdir(cwd0)
+        subprocess.run(['rm', '-rf', root])
+    return outs
+
+
 def eval_group(env, group, tier):
+    if group['kind'] == 'longpath':
+        return eval_longpath(env, group) if group['variant'] == 0 else []
     root = env.newdir('c2')
     core.materialise(root, the_tree(group['variant']))
     col, kind = group['col'], group['kind']
